@@ -4,7 +4,8 @@ from . import tlc
 from .common import VERIF
 
 ENVS = [{"a": (7, 1), "b": (3, 1), "c": (2, 1)}, {"a": (5, 2), "b": (1, 2), "c": (2, 1)}, {"a": (2, 1), "b": (5, 1), "c": (3, 1)},
-        {"a": (2, 1), "b": (3, 1), "c": (2, 1)}, {"a": (13, 1), "b": (7, 1), "c": (4, 1)}]
+        {"a": (2, 1), "b": (3, 1), "c": (2, 1)}, {"a": (13, 1), "b": (7, 1), "c": (4, 1)},
+        {"a": (3, 1), "b": (2, 1), "c": (5, 1)}]       # b even: the sign of a negative base survives only if the base stays grouped
 ENVS_TLA = "<< " + ", ".join("[a |-> <<%d,%d>>, b |-> <<%d,%d>>, c |-> <<%d,%d>>]" % (e["a"] + e["b"] + e["c"]) for e in ENVS) + " >>"
 DSL_OPS = '{"+","-","*","/","**","%",">","<","<=",">=","==","!="}'
 
@@ -12,7 +13,7 @@ DSL_OPS = '{"+","-","*","/","**","%",">","<","<=",">=","==","!="}'
 XMILE_OPS = '{"+","-","*","/","**","%",">","<","<=",">=","==","!="}'
 
 
-def family(fam, binops=DSL_OPS, fn1='{"abs","sqrt","round","exp"}', fn2='{"min","max"}', cache=True, timeout=3000, mod_nonneg=False):
+def family(fam, binops=DSL_OPS, fn1='{"abs","sqrt","round","exp","factorial"}', fn2='{"min","max"}', cache=True, timeout=3000, mod_nonneg=False):
     consts = dict(ModNonNeg="TRUE" if mod_nonneg else "FALSE", Envs=ENVS_TLA, Family='"%s"' % fam, BinOps=binops, Fn1=fn1, Fn2=fn2)
     h = hashlib.sha256()
     for fn in ("Expr.tla", "Rat.tla"):
